@@ -1,6 +1,7 @@
 (* C01 property theorems. This file contains only statements closed by
    [exact lemma] and Print Assumptions. *)
 From V Require Import Common.Base C01.Utf C01.Quote C01.SpecLiteral C01.QuoteProofs.
+From V Require Import C01.Num C01.SpecNumeric C01.NumProofs.
 
 (* printQuotedUTF16: for EVERY sequence of UTF-16 code units (lone surrogates
    included), every configuration (charset, unicode-escape support,
@@ -37,3 +38,39 @@ Theorem quote_no_raw_line_terminator : forall cfg k nowrap prefix u,
               Forall (no_lt nolf) cps.
 Proof. exact quote_no_raw_lt_all. Qed.
 Print Assumptions quote_no_raw_line_terminator.
+
+(* ---- numbers ---- *)
+
+(* the rewriting printNonNegativeFloat applies to FormatFloat's text keeps the
+   exact mathematical value (ECMA-262 MV), for EVERY text of the shapes
+     digits                                ("1000" => "1e3")
+     digits . digits                       (integer part not "0"; unchanged)
+     digits . digits e [+-]? digits        ("1.2e+24" => "12e23", "1.5e-07" => "15e-8", "1.2e+01" => "12")
+   (wider than what strconv emits: any number of integer digits, optional
+   sign, leading zeros in the exponent).  PARTIAL: the shapes "0.ddd"
+   (=> ".ddd" / "de-n") and "d e[+-]dd" without a dot are not covered by this
+   theorem; they are tied only by the correspondence run and the value oracle. *)
+Theorem shorten_value_partial : forall mw s,
+  form_int s \/ form_dot s \/ form_dot_exp s ->
+  exists a b, mv (shorten mw s) = Some a /\ mv s = Some b /\ dec_eq a b.
+Proof. exact shorten_value_forms. Qed.
+Print Assumptions shorten_value_partial.
+
+(* "0x" ++ FormatUint(v,16) is a HexIntegerLiteral whose MV is exactly v *)
+Theorem hex_path_exact : forall v, 0 <= v < 16 ^ 64 -> mv ([48; 120] ++ to_hex v) = Some (v, 0).
+Proof. exact hex_literal_value. Qed.
+Print Assumptions hex_path_exact.
+
+(* the < 1000 fast path prints a DecimalIntegerLiteral whose MV is exactly v *)
+Theorem small_int_exact : forall v, 0 <= v < 10 ^ 64 -> mv (smallIntToBytes v) = Some (v, 0).
+Proof. exact small_int_value. Qed.
+Print Assumptions small_int_exact.
+
+(* printNonNegativeFloat as a whole (same shapes): the bytes printed denote
+   either the value of FormatFloat's text or exactly the float's integer value *)
+Theorem print_float_value_partial : forall mw bits s,
+  0 <= bits -> form_int s \/ form_dot s \/ form_dot_exp s ->
+  let out := fst (printNonNegativeFloat mw bits s) in
+  value_preserved out s \/ exists v, float_int bits = Some v /\ mv out = Some (v, 0).
+Proof. exact print_float_value. Qed.
+Print Assumptions print_float_value_partial.
